@@ -504,6 +504,10 @@ func StandardWorld(name string) *World {
 			w.Candidates = append(w.Candidates, GenCandidate{Name: fmt.Sprintf("v%d", i), Owner: o, Reward: o, Control: o, Commission: uint64(10 * i), Validator: true,
 				Stakes: []GenStake{{Owner: o, Coin: "BIP", Value: fmt.Sprintf("%du", 1000*i)}}})
 		}
+		w.Candidates[1].Control = "a6" // v2's control address differs from its owner
+		w.Candidates = append(w.Candidates, GenCandidate{Name: "c5", Owner: "a5", Reward: "a5", Control: "a5", Commission: 5, Online: false,
+			Stakes: []GenStake{{Owner: "a5", Coin: "BIP", Value: "1500u"}}})
+		withUSDT(w)
 		return w
 	}
 	panic("unknown world " + name)
